@@ -315,6 +315,55 @@ class BlockIds(Family):
         return 'ok', bool(case['tx'])
 
 
+class ShortLived(Family):
+    """objects that live only for one expression: a run of different blocks / transactions is built or deserialised, asked
+    for an identifier and dropped at once (so that the next object is likely to occupy the same memory) - every answer is
+    that of the object's own fields"""
+    name = 'short_lived_objects'
+    nontrivial_rule = 'every case'
+
+    def cases(self, shard, tier):
+        for kind in ('block_deser', 'block_ctor', 'tx_deser', 'tx_ctor', 'header'):
+            for rounds in (1, 2):
+                yield (kind, rounds)
+
+    def check(self, case):
+        from bitcoin.core import CBlock, CTransaction, CBlockHeader
+        kind, rounds = case
+        n = 0
+        for r in range(rounds):
+            for i in range(40):
+                if kind.startswith('block') or kind == 'header':
+                    b = c01.block_model([i % len(c01.TX_POOL)] if i % 3 else [], {'nonce': i, 'time': 1000 + 7 * i})
+                    enc = W.encode_block(b)
+                    want = W.sha256d(enc[:80])
+                    if kind == 'block_deser':
+                        got = CBlock.deserialize(enc).GetHash()
+                        got2 = CBlock.deserialize(enc).get_header().GetHash()
+                    elif kind == 'block_ctor':
+                        got = C.lib_block(b).GetHash()
+                        got2 = C.lib_block(b).get_header().GetHash()
+                    else:
+                        got = CBlockHeader.deserialize(enc[:80]).GetHash()
+                        got2 = C.lib_header(b).GetHash()
+                    if got != want or got2 != want:
+                        raise Viol('%s #%d of a run of short-lived objects: block hash is not that of its own header' % (kind, i), want.hex(), bytes(got).hex())
+                else:
+                    m = C.default_tx(1 + i % 3, 1 + i % 2)
+                    m['locktime'] = i
+                    if i % 2:
+                        m['wit'] = [[bytes([i])]] + [[] for _ in m['vin'][1:]]
+                    enc = W.encode_tx(m)
+                    if kind == 'tx_deser':
+                        g1, g2 = CTransaction.deserialize(enc).GetTxid(), CTransaction.deserialize(enc).GetHash()
+                    else:
+                        g1, g2 = C.lib_tx(m).GetTxid(), C.lib_tx(m).GetHash()
+                    if g1 != W.txid(m) or g2 != W.wtxid(m):
+                        raise Viol('%s #%d of a run of short-lived objects: identifiers are not those of its own fields' % (kind, i), (W.txid(m).hex(), W.wtxid(m).hex()), (bytes(g1).hex(), bytes(g2).hex()))
+                n += 1
+        return kind, True, n
+
+
 class NonCanonical(Family):
     """objects obtained by deserialising encodings that are accepted but not canonical (marker/flag followed by
     all-empty witness stacks; non-minimal CompactSize counts): whatever object comes back, its identifiers equal the
@@ -365,4 +414,4 @@ class NonCanonical(Family):
 
 
 def families(tier):
-    return [TxIds(), SubObjects(), BlockIds(), NonCanonical()]
+    return [TxIds(), SubObjects(), BlockIds(), NonCanonical(), ShortLived()]
